@@ -113,8 +113,9 @@ class LocalInference:
                     return self.mirror_descent_auto(alpha/2, iters, callback)
                 else:
                     #print('Reducing learning rate and continuing', alpha/2)
-                    model.damping = (0.9 + model.damping) / 2.0
-                    if self.log: print('Increasing damping and continuing', model.damping)
+                    if hasattr(model, 'damping'): # only region graph oracles are damped
+                        model.damping = (0.9 + model.damping) / 2.0
+                    if self.log: print('Increasing damping and continuing', getattr(model, 'damping', None))
                     alpha *= 0.5
                     if _vt.ON and _vt.sink is not None:
                         _vt.emit('lmd.damp', t=t, damping=float(model.damping), alpha=float(alpha))
